@@ -47,9 +47,12 @@ def main():
         return m.check(pid, tier)
     except MachineryError as ex:
         print(f"MACHINERY-ERROR property={pid}: {ex}")
-        return 2
+        return 1 if _violations_already_reported() else 2
     except Exception as ex:
         traceback.print_exc()
+        if _violations_already_reported():
+            print(f"MACHINERY-ERROR property={pid}: the check stopped with an exception after reporting the violations above")
+            return 1
         site = raised_by_code_under_test(ex)
         if site is not None:
             # the package raised on an input chosen by the specification: the behaviour the property talks about is
@@ -58,6 +61,11 @@ def main():
             return report_uncaught(pid, tier, ex, site)
         print(f"MACHINERY-ERROR property={pid}: unexpected exception in the harness")
         return 2
+
+
+def _violations_already_reported():
+    from . import common
+    return common.FINISHED_WITH == 1
 
 
 _ENVIRONMENT_ERRORS = (OSError, MemoryError, TimeoutError, ImportError, RecursionError, MachineryError)
